@@ -316,7 +316,7 @@ class Emitter:
             else:
                 self.lines.append(f"let {v} := {rhs}")
             new = self.fresh("st")
-            self.lines.append(f"let {new} : RS := {{ {self.st} with {l[1]} := {self.st}.{l[1]}.set ({idx}).toNat {v} }}")
+            self.lines.append(f"let {new} : RS := {{ {self.st} with {l[1]} := wr {self.st}.{l[1]} ({idx}).toNat {v} }}")
             self.st = new
             return v
         if k == "cond":
@@ -498,6 +498,9 @@ def generate(repo):
     for name in PURE:
         out.append(f"/-- `#define {name}({','.join(defs[name][0])}) {defs[name][1]}` -/\n")
         out.append(pure_def(M, name) + "\n")
+    out.append("/-- checked array write: an out-of-range index destroys the array, so that no theorem about the\n"
+               "results can hold by accident of a silently dropped write -/\n"
+               "def wr {α : Type} (a : List α) (i : Nat) (v : α) : List α := if i < a.length then a.set i v else []\n\n")
     out.append("/-- the local arrays assigned by the statement macros -/\nstructure RS where\n" +
                "".join(f"  {a} : List UInt32\n" for a in mutable) + "\n")
     for name, rv in PROCS:
